@@ -65,7 +65,40 @@ pub fn drive()
         }
         found.extend(world::m_final(&obs1).0.into_iter().map(|v| Violation::new("C17", &format!("first-build:{}", v.signature), v.what)));
         let first_outputs : BTreeMap<String, Vec<u8>> = graph.rules.iter().flat_map(|x| x.targets()).filter_map(|t| obs1.after.read(&t).map(|b| (t, b.clone()))).collect();
-        let record_before = history_of(&w, &graph.rules[r]);
+        let mut record_before = history_of(&w, &graph.rules[r]);
+
+        // a long life in between: the rule is built for dozens of other states of one of its declared leaf sources, then the
+        // leaf returns to its first content and the first outputs are no longer in the cache, so that the first record is
+        // the only thing left to contradict
+        let produced_paths : BTreeSet<String> = graph.rules.iter().flat_map(|x| x.targets()).collect();
+        let own_leaves : Vec<String> = graph.rules[r].sources.iter().filter(|s| !produced_paths.contains(*s)).cloned().collect();
+        if found.len() == 0 && own_leaves.len() > 0 && case % 24 == 3
+        {
+            let leaf = own_leaves[rng.below(own_leaves.len())].clone();
+            let original = w.sys.read_file(&leaf).unwrap_or(vec![]);
+            let versions = rng.range(33, 44);
+            for k in 0..versions
+            {
+                let c = w.fresh_content("life");
+                w.write_leaf(&leaf, c);
+                let o = w.invoke_build(None, &SchedChoice::serial());
+                if !o.verdict.is_ok()
+                {
+                    found.push(Violation::new("C17", "build-in-long-history-failed", format!("build number {} of a long history returned {}", k + 2, o.verdict.short())));
+                    break;
+                }
+            }
+            w.write_leaf(&leaf, original);
+            let own_first : Vec<&Vec<u8>> = graph.rules[r].targets().iter().filter_map(|t| first_outputs.get(t)).collect();
+            let disk = w.sys.disk();
+            for (name, bytes) in world::cache_files(&disk)
+            {
+                if own_first.iter().any(|b| **b == bytes) { w.sys.user_remove(&format!("{}/cache/{}", ruler_dir(), name)); }
+            }
+            record_before = history_of(&w, &graph.rules[r]);
+            notes.push(format!("{} more builds with other contents of {}, then its first content again; the first outputs removed from the cache", versions, leaf));
+            tally.counts.inc("long_histories");
+        }
 
         let rounds = 1 + rng.below(2);
         for round in 0..rounds
